@@ -805,6 +805,12 @@ func (env *Env) callExpr(e *ECall) V {
 		ch := env.eval(e.Args[0])
 		arr := fc.heapGet(env.cur, "ghost:closed", fieldSort(sBool))
 		return boolV(sx("select", arr, ch.T[0]))
+	case "recvs":
+		// recvs(ch): how many receives on ch this goroutine has completed
+		argc(1)
+		ch := env.eval(e.Args[0])
+		arr := fc.heapGet(env.cur, "ghost:recvs", fieldSort(sBV(64)))
+		return V{Ty: types.Typ[types.Int], T: []string{sx("select", arr, ch.T[0])}}
 	case "v4mapped":
 		// net.IP's IPv4-in-IPv6 form: 16 octets with the prefix 00*10 ff ff. Modelled as an uninterpreted predicate of the
 		// slice's (allocation, offset), defined by the twelve byte tests in the state where it is evaluated.
@@ -1278,6 +1284,16 @@ func (env *Env) resolveTarget(text string) []modTarget {
 				keys, srts, oid, _ := env.ghostKeys(g, o)
 				return []modTarget{{kind: "ghost", keys: keys, sorts: srts, ref: oid}}
 			}
+			if id.Name == "recvs" && len(e.Args) == 1 {
+				ch := env.withState(env.old, func() V { return env.eval(e.Args[0]) })
+				fc.keySort["ghost:recvs"] = fieldSort(sBV(64))
+				return []modTarget{{kind: "ghost", keys: []string{"ghost:recvs"}, sorts: []string{sBV(64)}, ref: ch.T[0]}}
+			}
+			if id.Name == "closed" && len(e.Args) == 1 {
+				ch := env.withState(env.old, func() V { return env.eval(e.Args[0]) })
+				fc.keySort["ghost:closed"] = fieldSort(sBool)
+				return []modTarget{{kind: "ghost", keys: []string{"ghost:closed"}, sorts: []string{sBool}, ref: ch.T[0]}}
+			}
 			if id.Name == "bytes" {
 				if a, ok := e.Args[0].(*EIdent); ok && a.Name == "any" {
 					// byte memory owned by a buffer pool: may be overwritten (callers must not hold views into it)
@@ -1358,6 +1374,10 @@ func (fc *FnCtx) havocTargetX(env *Env, old *State, text string, pos token.Pos, 
 				fc.assume(fmt.Sprintf("(forall ((%s (_ BitVec 64))) (! (=> (not (and (bvule %s %s) (bvult %s %s))) (= (select %s %s) (select %s %s))) :pattern ((select %s %s))))",
 					q, mt.lo, q, q, mt.hi, na, q, oldInner, q, na, q))
 				fc.heapSet(fc.cur, key, srt, sx("store", mem, mt.ref, na))
+				if fc.peelAlt == nil {
+					fc.peelAlt = map[string]string{}
+				}
+				fc.peelAlt[fc.cur.heap[key]] = sx("bvuge", mt.lo, mt.hi)
 			}
 			fc.noteWrite(key)
 		}
